@@ -62,16 +62,17 @@ type tbAsk struct {
 }
 
 type tbWorld struct {
-	mu     sync.Mutex
-	res    *simcore.Result
-	spec   string
-	eps    []Endpoint
-	pubs   []x509.PublicKey
-	allow  [][]bool
-	tells  map[string]*tbTell
-	asks   map[string]*tbAsk
-	closed []bool // Close has returned on node i
-	lossy  bool
+	mu       sync.Mutex
+	res      *simcore.Result
+	spec     string
+	eps      []Endpoint
+	pubs     []x509.PublicKey
+	allow    [][]bool
+	tells    map[string]*tbTell
+	asks     map[string]*tbAsk
+	closed   []bool // Close has returned on node i
+	lossy    bool
+	addrSeen map[string]bool
 }
 
 func (w *tbWorld) violate(class, format string, args ...any) *simcore.Violation {
@@ -98,7 +99,9 @@ func RunTierB(prop string, st *simcore.Stream, tier, leg string, logOn bool, res
 	spec := leg
 	p := Params{N: 2 + st.Intn(2), InnerMTU: simcore.Pick(st, 1350, 1500, 9000), QuicMTU: simcore.Pick(st, 1200, 4000, 20000), QueueLen: 256, Workers: 2}
 	allow := make([][]bool, p.N)
-	whitelisted := st.Bool(1, 2)
+	canWhitelist := strings.Contains(spec, "quic") || strings.Contains(spec, "p2pke")
+	onMem := strings.HasSuffix(spec, "mem")
+	whitelisted := st.Bool(1, 2) && canWhitelist
 	for i := range allow {
 		allow[i] = make([]bool, p.N)
 		for j := range allow[i] {
@@ -110,7 +113,7 @@ func RunTierB(prop string, st *simcore.Stream, tier, leg string, logOn bool, res
 	}
 	w0 := NewWorld(st, res, false, spec, p) // the scheduler of this World is never started
 	lossRate := 0
-	if st.Bool(1, 3) {
+	if st.Bool(1, 3) && onMem {
 		lossRate = 1 + st.Intn(6) // out of 64 datagrams
 	}
 	// loss keyed by (seed, link, ordinal of the datagram on that link): not by a shared stream,
@@ -134,11 +137,19 @@ func RunTierB(prop string, st *simcore.Stream, tier, leg string, logOn bool, res
 			return true
 		}
 	}
-	w := &tbWorld{res: res, spec: spec, allow: allow, tells: map[string]*tbTell{}, asks: map[string]*tbAsk{}, closed: make([]bool, p.N), lossy: lossRate > 0}
+	w := &tbWorld{res: res, spec: spec, allow: allow, tells: map[string]*tbTell{}, asks: map[string]*tbAsk{}, closed: make([]bool, p.N), lossy: lossRate > 0, addrSeen: map[string]bool{}}
 	w.eps = w0.Build(spec)
 	w.pubs = w0.Pubs
 	eps := w.eps
 	mtu := eps[0].MTU()
+	for _, ep := range eps {
+		for _, a := range ep.LocalAddrs() {
+			w.checkAddrText(ep, a, "local address")
+		}
+		for j := range eps {
+			w.checkAddrText(ep, ep.AddrOf(j), "peer address")
+		}
+	}
 	res.Cfg = map[string]any{"stack": spec, "nodes": p.N, "mtu": mtu, "innerMTU": p.InnerMTU, "lossPer64": lossRate, "whitelist": fmt.Sprint(allow), "tier": "B"}
 
 	rctx, rcancel := context.WithCancel(context.Background())
@@ -162,6 +173,9 @@ func RunTierB(prop string, st *simcore.Stream, tier, leg string, logOn bool, res
 					}
 				}
 			}()
+		}
+		if !ep.HasAsk() {
+			continue
 		}
 		wg.Add(1)
 		go func() {
@@ -235,6 +249,9 @@ func RunTierB(prop string, st *simcore.Stream, tier, leg string, logOn bool, res
 		id := nextID
 		switch st.Intn(9) {
 		case 8: // several asks from one node to one destination at the same time, with slow handlers
+			if !eps[from].HasAsk() {
+				continue
+			}
 			k := 2 + st.Intn(2)
 			var burst []*tbAsk
 			for i := 0; i < k; i++ {
@@ -336,6 +353,9 @@ func RunTierB(prop string, st *simcore.Stream, tier, leg string, logOn bool, res
 			}
 			res.Probe("tell-" + class)
 		case 3, 4: // ask
+			if !eps[from].HasAsk() {
+				continue
+			}
 			n, class := lens()
 			a := &tbAsk{id: id, from: from, to: to, req: tbFill(st, 'A', id, from, to, n), lenClass: class}
 			a.respLen = simcore.Pick(st, 0, 8+st.Intn(64), mtu, mtu/2, 8+st.Intn(300))
@@ -450,6 +470,8 @@ func RunTierB(prop string, st *simcore.Stream, tier, leg string, logOn bool, res
 				do(3*time.Second, func(ctx context.Context) {
 					if kind == "Receive" {
 						err = eps[to].Receive(ctx, func(Msg) {})
+					} else if !eps[to].HasAsk() {
+						err = p2p.ErrClosed
 					} else {
 						err = eps[to].ServeAsk(ctx, func(context.Context, []byte, Msg) int { return 0 })
 					}
@@ -464,6 +486,9 @@ func RunTierB(prop string, st *simcore.Stream, tier, leg string, logOn bool, res
 				}
 			}
 		case 7: // key lookup outside a handler
+			if !eps[from].Secure() {
+				continue
+			}
 			var key x509.PublicKey
 			var err error
 			do(5*time.Second, func(ctx context.Context) { key, err = eps[from].LookupKey(ctx, eps[from].AddrOf(to)) })
@@ -486,6 +511,11 @@ func RunTierB(prop string, st *simcore.Stream, tier, leg string, logOn bool, res
 	}
 	settle()
 	w.judge(mtu, closedNode)
+	for _, ep := range eps {
+		for _, pr := range ep.ObjectProblems() {
+			w.violate("address-not-equal-after-round-trip", "node %d: %s", ep.Node(), pr)
+		}
+	}
 	for i, ep := range eps {
 		if i != closedNode {
 			ep.Close()
@@ -515,6 +545,7 @@ func RunTierB(prop string, st *simcore.Stream, tier, leg string, logOn bool, res
 		"C04": {"wrong-source-identity": true, "wrong-key-for-source": true, "lookup-in-handler-failed": true, "wrong-key-for-address": true, "whitelisted-out-delivered": true, "delivered-to-wrong-identity": true},
 		"C09": {"refused-within-mtu": true, "accepted-above-mtu": true, "not-delivered-within-mtu": true, "delivered-not-intact": true},
 		"C11": {"buffer-changed-in-callback": true, "ask-wrong-answer": true, "ask-success-without-handler": true, "ask-success-after-handler-failure": true, "ask-truncated-success": true, "ask-bad-length": true, "ask-request-not-asked": true, "ask-never-returned": true},
+		"C16": {"address-does-not-parse": true, "address-changes-in-round-trip": true, "address-not-equal-after-round-trip": true},
 		"C12": {"late-call-blocked": true, "success-after-close": true, "delivery-after-close": true},
 	}[prop]
 	var out []simcore.Violation
@@ -528,11 +559,32 @@ func RunTierB(prop string, st *simcore.Stream, tier, leg string, logOn bool, res
 	res.Violations = out
 }
 
+// checkAddrText: an address handed out by a swarm parses back with that swarm to the same text (C16).
+func (w *tbWorld) checkAddrText(ep Endpoint, a, where string) {
+	key := fmt.Sprintf("%d|%s", ep.Node(), a)
+	if w.addrSeen[key] {
+		return
+	}
+	w.addrSeen[key] = true
+	w.res.Checks++
+	back, err := ep.RoundTrip(a)
+	switch {
+	case err != nil:
+		w.violate("address-does-not-parse", "%s %q handed out by node %d is rejected by the same swarm's ParseAddr: %v", where, a, ep.Node(), err)
+	case back != a:
+		w.violate("address-changes-in-round-trip", "%s %q of node %d parses and marshals back as %q", where, a, ep.Node(), back)
+	default:
+		w.res.Probe("address-round-trip-ok")
+	}
+}
+
 func (w *tbWorld) onTell(ep Endpoint, m Msg) {
 	at := ep.Node()
 	snap := append([]byte{}, m.Payload...)
 	w.mu.Lock()
 	defer w.mu.Unlock()
+	w.checkAddrText(ep, m.Src, "source address")
+	w.checkAddrText(ep, m.Dst, "destination address")
 	res := w.res
 	res.Checks++
 	res.Probe("delivered")
@@ -564,13 +616,30 @@ func (w *tbWorld) onTell(ep Endpoint, m Msg) {
 // checkSource: Src is the address the receiver uses for the sender, and the key
 // looked up from inside the handler is the sender's.
 func (w *tbWorld) checkSource(ep Endpoint, at, from int, src, what string) {
-	if want := ep.AddrOf(from); src != want {
+	want := ep.AddrOf(from)
+	if strings.HasSuffix(w.spec, "ssh") {
+		// the SSH swarm reports the TCP connection's source port, not the sender's listening port:
+		// compare identity and host
+		cut := func(a string) string {
+			if i := strings.LastIndex(a, ":"); i > 0 {
+				return a[:i]
+			}
+			return a
+		}
+		if cut(src) == cut(want) {
+			src = want
+		}
+	}
+	if src != want {
 		wi, si := strings.Index(want, "@"), strings.Index(src, "@")
 		if wi > 0 && si > 0 && want[:wi] != src[:si] {
 			w.violate("wrong-source-identity", "node %d: %s of node %d arrived with Src=%q, whose identity is not that node's (%q)", at, what, from, src, want)
 		} else {
 			w.violate("wrong-source-address", "node %d: %s of node %d arrived with Src=%q, expected %q", at, what, from, src, want)
 		}
+		return
+	}
+	if !ep.Secure() {
 		return
 	}
 	ctx, cf := context.WithCancel(context.Background())
